@@ -520,6 +520,7 @@ def tag_of(case, o):
 
 def run(ck: common.Check):
     ck.prove(["GeffProps.C20"])
+    drv = ck.driver()      # built right after the translation so that it is linked against the same Gen files
     ck.rule = ("cases = corpus + every (directed, n<=N, m<=n(n-1)+2) through create_dummy_in_mem_geff + every subset of "
                "{t,z,y,x} x include_varlength x include_missing x directed x 7 sizes through create_dummy_in_mem_geff and "
                "create_mock_geff + the four wrappers over (directed, n<=5, m) + id/axis dtype grid + seeded random extra-"
@@ -542,7 +543,6 @@ def run(ck: common.Check):
     ck.extra["write_arrays_accepts_empty_varlength (D15 repaired on this tree)"] = vlen_ok
     obs = common.pmap(observe, cases, chunksize=32)
 
-    drv = ck.driver()
     reqs, arrs = [], []
     for c in cases:
         r, a = model_request(c, vlen_ok)
